@@ -135,4 +135,10 @@ def classify(spec):
         labs.append('n_ids=1')
     if spec.get('late'):
         labs.append('late_n_ids')
+    if popgen.has(pop, 'trunc') and 'vec' in spec:
+        from vf.props.c06 import leaf_table
+        nb = ref.hier_layout(pop, spec['n_ids'])[0]
+        for lf in leaf_table(pop, spec['n_ids'], spec['vec'][nb:], spec.get('cov')):
+            if lf['kind'] == 'trunc' and np.any(lf['P'][:, 0] / lf['P'][:, 1] <= -4):
+                labs.append('trunc_far_tail')
     return sorted(set(labs))
